@@ -1235,3 +1235,443 @@ func ruleQuotientUsed(c *Ctx) {
 		c.undecided("quotient.count", nil, fmt.Sprintf("only %d general divisions found", n))
 	}
 }
+
+// Overflow clamp of reduceN: while the exponent is above the maximum and the coefficient can still be
+// multiplied by ten without leaving the coefficient range, the loop must do so (otherwise a
+// representable value such as 1e6144 written with a short coefficient overflows to infinity).
+// Completeness of the loop condition: every coefficient whose tenfold fits must pass it.
+func ruleClampComplete(c *Ctx) {
+	p := c.P
+	lim := new(big.Int).SetUint64(coefLimitHi())    // top word of the largest coefficient
+	fitTop := new(big.Int).Quo(lim, big.NewInt(10)) // sig[top] <= fitTop  <=>  sig·10 stays within the limit (for any low words)
+	n := 0
+	for _, name := range p.sortedFuncNames() {
+		fd := p.Funcs[name]
+		if fd.Body == nil {
+			continue
+		}
+		k := 0
+		ast.Inspect(fd.Body, func(nd ast.Node) bool {
+			loop, ok := nd.(*ast.ForStmt)
+			if !ok || loop.Cond == nil {
+				return true
+			}
+			isClamp := false
+			var bound *big.Int
+			for _, cj := range conjuncts(loop.Cond) {
+				x, op, kv, ok := p.normCmp(cj)
+				if !ok {
+					continue
+				}
+				if op == token.GTR && kv.IsInt64() && kv.Int64() == specMaxBiasedExp && p.exprKey(x) != "" {
+					isClamp = true
+				}
+				if ix, isIx := ast.Unparen(x).(*ast.IndexExpr); isIx && op == token.LEQ {
+					if i, ok := p.constInt64(ix.Index); ok && int(i) == limbsOf(p.typeOf(ix.X))-1 {
+						bound = kv
+					}
+				}
+			}
+			if !isClamp {
+				return true
+			}
+			k++
+			n++
+			key := fmt.Sprintf("clamp:%s#%d", name, k)
+			fp := funcProps(name)
+			if bound == nil {
+				c.undecided(key, loop, "the coefficient bound of the overflow clamp loop was not found", fp...)
+				return true
+			}
+			okLoop := bound.Cmp(fitTop) >= 0
+			// commit idiom inside: tmp := sig.mul64(10); if tmp[top] <= L { commit } else { break }
+			detail := fmt.Sprintf("loop admits top words up to %#x (every coefficient whose tenfold fits has a top word <= %#x)", bound, fitTop)
+			ast.Inspect(loop.Body, func(m ast.Node) bool {
+				ifs, ok := m.(*ast.IfStmt)
+				if !ok {
+					return true
+				}
+				x, op, kv, ok := p.normCmp(ifs.Cond)
+				if !ok {
+					return true
+				}
+				if ix, isIx := ast.Unparen(x).(*ast.IndexExpr); isIx {
+					if i, ok := p.constInt64(ix.Index); ok && int(i) == limbsOf(p.typeOf(ix.X))-1 {
+						// `tmp[top] <= K` commits / `tmp[top] > K` breaks: K must be the coefficient limit itself
+						switch op {
+						case token.LEQ, token.GTR:
+							if kv.Cmp(lim) < 0 {
+								okLoop = false
+								detail = fmt.Sprintf("the product is accepted only up to a top word of %#x; coefficients up to %#x are valid", kv, lim)
+							}
+						}
+					}
+				}
+				return true
+			})
+			c.check(okLoop, key, loop, "the overflow clamp scales whenever the tenfold coefficient still fits", name+": the loop that brings an exponent above the maximum back into range stops too early: "+detail+"; a representable result would become infinite", fp...)
+			return true
+		})
+	}
+	if n < 1 {
+		c.undecided("clamp.count", nil, "no overflow clamp loop found")
+	}
+}
+
+// Compose, two necessary conditions of "exact or error":
+//  - a loop that strips k digits at a time while the value exceeds a threshold strips only digits
+//    that have to go (the threshold divided by 10^(k-1) still exceeds the largest coefficient), so
+//    a representable value is never rejected for a non-zero digit that could have been kept;
+//  - the coefficient handed to compose lies within the coefficient range (interval analysis).
+func ruleComposeRange(c *Ctx) {
+	p := c.P
+	fd := c.fn("Decimal.Compose")
+	if fd == nil {
+		return
+	}
+	cmax := new(big.Int).Lsh(big.NewInt(5), 111)
+	cmax.Sub(cmax, big.NewInt(1))
+	divK, _ := p.divKTable()
+	n := 0
+	ast.Inspect(fd.Body, func(nd ast.Node) bool {
+		loop, ok := nd.(*ast.ForStmt)
+		if !ok || loop.Cond == nil {
+			return true
+		}
+		x, op, cst, ok := p.normCmp(loop.Cond)
+		if ok && op == token.NEQ && cst.Sign() == 0 {
+			op = token.GTR // an unsigned word: != 0 is > 0
+		}
+		if !ok || op != token.GTR {
+			return true
+		}
+		ix, ok := ast.Unparen(x).(*ast.IndexExpr)
+		if !ok {
+			return true
+		}
+		nl := limbsOf(p.typeOf(ix.X))
+		if i, ok := p.constInt64(ix.Index); !ok || int(i) != nl-1 || nl < 2 {
+			return true
+		}
+		k := -1
+		for _, s := range loop.Body.List {
+			if as, ok := s.(*ast.AssignStmt); ok && len(as.Rhs) == 1 {
+				if call, ok := as.Rhs[0].(*ast.CallExpr); ok {
+					if info, ok := divK[p.calleeName(call)]; ok {
+						k = info.Log10
+					}
+				}
+			}
+		}
+		if k < 0 {
+			return true
+		}
+		n++
+		lower := new(big.Int).Add(cst, big.NewInt(1))
+		lower.Lsh(lower, uint(64*(nl-1)))
+		need := new(big.Int).Mul(cmax, pow10(k-1))
+		c.check(lower.Cmp(need) > 0, fmt.Sprintf("compose.strip:%s>%#x/10^%d", p.exprName(ix.X), cst, k), loop,
+			fmt.Sprintf("stripping %d digits above this threshold removes only digits that cannot be kept", k),
+			fmt.Sprintf("Decimal.Compose: stripping %d digits at a time while %s exceeds %#x can remove a digit that would still fit in 34 digits (needs (C+1)·2^%d > (5·2^111-1)·10^%d): an exactly representable value would be rejected", k, p.exprStr(x), cst, 64*(nl-1), k-1), "C14")
+		return true
+	})
+	if n < 1 {
+		c.undecided("compose.strip.count", fd, "no digit-stripping loop found in Compose", "C14")
+	}
+	// the coefficient at compose
+	m := 0
+	lim := new(big.Int).SetUint64(coefLimitHi())
+	walkStack(fd.Body, func(nd ast.Node, stack []ast.Node) {
+		call, ok := nd.(*ast.CallExpr)
+		if !ok || !p.isPkgFunc(call, "compose") || len(call.Args) != 3 {
+			return
+		}
+		m++
+		k := p.exprKey(call.Args[1])
+		var site ast.Node
+		for i := len(stack) - 1; i >= 0; i-- {
+			if _, ok := stack[i].(ast.Stmt); ok {
+				site = stack[i]
+				break
+			}
+		}
+		okc := false
+		desc := "unknown"
+		if k != "" && site != nil {
+			if env, reached := p.envWalk(fd.Body.List, p.paramEnv(fd), site); reached {
+				if iv, ok := env[k+"[1]"]; ok && iv.hi != nil {
+					desc = fmt.Sprintf("<= %#x", iv.hi)
+					okc = iv.hi.Cmp(lim) <= 0
+				}
+			}
+		}
+		c.check(okc, fmt.Sprintf("compose.coef#%d", m), call, "the coefficient handed to compose is within the coefficient range (top word <= 0x27fffffffffff)",
+			"Decimal.Compose: the top word of the coefficient handed to compose is "+desc+" at this point; every path must have checked it against 0x0002_7fff_ffff_ffff after the last scaling, or a value out of range is stored without an error", "C14")
+	})
+	if m < 1 {
+		c.undecided("compose.coef", fd, "no compose call found in Decimal.Compose", "C14")
+	}
+}
+
+// Exp2 builds 2^shift directly in limbs. Every seeding must put the single bit at position `shift`:
+// `v[i] = 1 << (shift - K)` needs K = 64·i, and a constant seed `v[i] = 2^b` must be followed by
+// `shift -= 64·i + b` (the part of the power of two already stored).
+func ruleBinarySeed(c *Ctx) {
+	p := c.P
+	fd := c.fn("Exp2")
+	if fd == nil {
+		return
+	}
+	n := 0
+	walkStack(fd.Body, func(nd ast.Node, stack []ast.Node) {
+		as, ok := nd.(*ast.AssignStmt)
+		if !ok || as.Tok != token.ASSIGN || len(as.Lhs) != 1 || len(as.Rhs) != 1 {
+			return
+		}
+		ix, ok := as.Lhs[0].(*ast.IndexExpr)
+		if !ok {
+			return
+		}
+		limb, ok := p.constInt64(ix.Index)
+		if !ok || limbsOf(p.typeOf(ix.X)) < 2 {
+			return
+		}
+		rhs := ast.Unparen(as.Rhs[0])
+		if be, ok := rhs.(*ast.BinaryExpr); ok && be.Op == token.SHL {
+			one, ok1 := p.constInt64(be.X)
+			if !ok1 || one != 1 {
+				return
+			}
+			n++
+			// shift count: S or S - K
+			var k int64
+			okForm := false
+			cnt := ast.Unparen(be.Y)
+			if sub, ok := cnt.(*ast.BinaryExpr); ok && sub.Op == token.SUB && p.exprKey(sub.X) != "" {
+				if kv, ok := p.constInt64(sub.Y); ok {
+					k, okForm = kv, true
+				}
+			} else if p.exprKey(cnt) != "" {
+				k, okForm = 0, true
+			}
+			c.check(okForm && k == 64*limb, fmt.Sprintf("binseed:%s[%d]", p.exprName(ix.X), limb), as, fmt.Sprintf("bit `shift` of the value: limb %d holds bit shift-%d", limb, 64*limb),
+				fmt.Sprintf("Exp2: `%s = %s` stores 2^(shift-%d) in limb %d, whose bit 0 has weight 2^%d: the value built is not 2^shift", p.exprStr(as.Lhs[0]), p.exprStr(as.Rhs[0]), k, limb, 64*limb), "C16")
+			return
+		}
+		cv, ok := constBig(p.constOf(rhs))
+		if !ok || cv.Sign() <= 0 || cv.BitLen() == 0 || new(big.Int).And(cv, new(big.Int).Sub(cv, big.NewInt(1))).Sign() != 0 {
+			return
+		}
+		// a constant power of two: the next statement of the block must subtract its exponent from the shift
+		n++
+		want := 64*limb + int64(cv.BitLen()-1)
+		list, idx := enclosingBlock(append(append([]ast.Node{}, stack...), nd))
+		got := int64(-1)
+		if list != nil && idx+1 < len(list) {
+			if a, ok := p.asAdjustment(list[idx+1]); ok {
+				got = -a.delta
+			}
+		}
+		c.check(got == want, fmt.Sprintf("binseed:%s[%d]=2^%d", p.exprName(ix.X), limb, cv.BitLen()-1), as, fmt.Sprintf("2^%d stored, shift reduced by %d", want, want),
+			fmt.Sprintf("Exp2: `%s = %s` stores 2^%d; the remaining shift must be reduced by exactly %d in the next statement (found %d): the result would be off by a power of two", p.exprStr(as.Lhs[0]), p.exprStr(as.Rhs[0]), want, want, got), "C16")
+	})
+	if n < 5 {
+		c.undecided("binseed.count", fd, fmt.Sprintf("only %d limb seedings of 2^shift found in Exp2", n), "C16")
+	}
+}
+
+// d ± 1 on decomposed192 values: the early exits return either the constant one (d is negligible) or d
+// itself (one is negligible); the sign that comes with each is fixed by the operation:
+//   sub1    = d - 1 : one -> negative, d -> positive
+//   add1neg = 1 - d : one -> positive, d -> negative
+func ruleUnitOps(c *Ctx) {
+	p := c.P
+	spec := map[string][2]bool{ // [sign with the constant one, sign with d]
+		"decomposed192.sub1":    {true, false},
+		"decomposed192.add1neg": {false, true},
+	}
+	for _, fn := range []string{"decomposed192.sub1", "decomposed192.add1neg"} {
+		fd := c.fn(fn)
+		if fd == nil {
+			continue
+		}
+		recv := recvObj(p, fd)
+		n := 0
+		ast.Inspect(fd.Body, func(nd ast.Node) bool {
+			r, ok := nd.(*ast.ReturnStmt)
+			if !ok || len(r.Results) != 3 {
+				return true
+			}
+			sign, isConst := p.constBool(r.Results[0])
+			if !isConst {
+				return true
+			}
+			kind := -1
+			if p.objOf(r.Results[1]) == recv && recv != nil {
+				kind = 1
+			} else if cl, ok := ast.Unparen(r.Results[1]).(*ast.CompositeLit); ok {
+				// decomposed192{sig: uint192{1, 0, 0}, exp: 0}
+				isOne := false
+				for _, el := range cl.Elts {
+					if kv, ok := el.(*ast.KeyValueExpr); ok && p.exprStr(kv.Key) == "sig" {
+						if inner, ok := kv.Value.(*ast.CompositeLit); ok && len(inner.Elts) == 3 {
+							a, ok1 := p.constInt64(inner.Elts[0])
+							b, ok2 := p.constInt64(inner.Elts[1])
+							cc, ok3 := p.constInt64(inner.Elts[2])
+							isOne = ok1 && ok2 && ok3 && a == 1 && b == 0 && cc == 0
+						}
+					}
+					if kv, ok := el.(*ast.KeyValueExpr); ok && p.exprStr(kv.Key) == "exp" {
+						if v, ok := p.constInt64(kv.Value); !ok || v != 0 {
+							isOne = false
+						}
+					}
+				}
+				if isOne {
+					kind = 0
+				}
+			}
+			if kind < 0 {
+				return true
+			}
+			n++
+			what := []string{"the constant one (d is negligible)", "d itself (one is negligible)"}[kind]
+			c.check(sign == spec[fn][kind], fmt.Sprintf("unitop:%s#%d", fn, n), r, fmt.Sprintf("returns %s with sign negative=%v", what, spec[fn][kind]),
+				fmt.Sprintf("%s returns %s with sign negative=%v; for this operation that result has sign negative=%v", fn, what, sign, spec[fn][kind]), "C16", "C18")
+			return true
+		})
+		if n < 3 {
+			c.undecided("unitop:"+fn, fd, fmt.Sprintf("only %d early exits found", n), "C16")
+		}
+	}
+}
+
+// A pointer parameter that the function itself compares with nil (so nil is an expected argument) is
+// dereferenced only where the analysis knows it is non-nil: after `p != nil`, or after it was replaced
+// by a fresh value on that path.
+func ruleNilParams(c *Ctx) {
+	p := c.P
+	n := 0
+	for _, name := range p.sortedFuncNames() {
+		fd := p.Funcs[name]
+		if fd.Body == nil || fd.Type.Params == nil {
+			continue
+		}
+		for _, po := range paramObjs(p, fd) {
+			if po == nil {
+				continue
+			}
+			if _, isPtr := po.Type().Underlying().(*types.Pointer); !isPtr {
+				continue
+			}
+			// does the function test it against nil?
+			tests := false
+			ast.Inspect(fd.Body, func(nd ast.Node) bool {
+				if be, ok := nd.(*ast.BinaryExpr); ok && (be.Op == token.EQL || be.Op == token.NEQ) {
+					for _, pair := range [][2]ast.Expr{{be.X, be.Y}, {be.Y, be.X}} {
+						if id, ok := ast.Unparen(pair[1]).(*ast.Ident); ok && id.Name == "nil" && p.objOf(pair[0]) == po {
+							tests = true
+						}
+					}
+				}
+				return true
+			})
+			if !tests {
+				continue
+			}
+			key := p.exprKey(&ast.Ident{Name: po.Name()})
+			_ = key
+			k := 0
+			walkStack(fd.Body, func(nd ast.Node, stack []ast.Node) {
+				// dereferences: p.Method(...), p.field, *p
+				var base ast.Expr
+				switch x := nd.(type) {
+				case *ast.SelectorExpr:
+					base = x.X
+				case *ast.StarExpr:
+					base = x.X
+				default:
+					return
+				}
+				id, ok := ast.Unparen(base).(*ast.Ident)
+				if !ok || p.Info.Uses[id] != po {
+					return
+				}
+				k++
+				n++
+				full := append(append([]ast.Node{}, stack...), nd)
+				var site ast.Node
+				for i := len(full) - 1; i >= 0; i-- {
+					if _, ok := full[i].(ast.Stmt); ok {
+						site = full[i]
+						break
+					}
+				}
+				okNil := false
+				if site != nil {
+					env, reached := p.envWalk(fd.Body.List, ienv{}, site)
+					if reached {
+						if ifs, ok := site.(*ast.IfStmt); ok && containsNode(ifs.Cond, nd) {
+							env = p.condEnv(ifs.Cond, env, nd)
+						}
+						okNil = env.isBottom() || p.nilness(id, env) == 1
+					}
+				}
+				c.check(okNil, fmt.Sprintf("nilparam:%s:%s#%d", name, po.Name(), k), nd, po.Name()+" is known to be non-nil here",
+					fmt.Sprintf("%s: `%s` dereferences the parameter %s, which the function accepts as nil, at a point where it may still be nil: a nil argument would panic", name, p.exprStr(nd.(ast.Expr)), po.Name()), "C20", "C09", "C10")
+			})
+		}
+	}
+	if n < 6 {
+		c.undecided("nilparam.count", nil, fmt.Sprintf("only %d dereferences of nil-able parameters found", n), "C20")
+	}
+}
+
+// Go's % takes the sign of the dividend: `x % 2 == 1` (or `!= 1`) misclassifies negative odd x.
+// A remainder of a signed value is compared with a non-zero constant only where the interval
+// analysis shows the value to be non-negative.
+func ruleSignedRemainder(c *Ctx) {
+	p := c.P
+	n := 0
+	for _, name := range p.sortedFuncNames() {
+		fd := p.Funcs[name]
+		if fd.Body == nil {
+			continue
+		}
+		k := 0
+		walkStack(fd.Body, func(nd ast.Node, stack []ast.Node) {
+			be, ok := nd.(*ast.BinaryExpr)
+			if !ok || (be.Op != token.EQL && be.Op != token.NEQ) {
+				return
+			}
+			for _, pair := range [][2]ast.Expr{{be.X, be.Y}, {be.Y, be.X}} {
+				rem, ok := ast.Unparen(pair[0]).(*ast.BinaryExpr)
+				if !ok || rem.Op != token.REM {
+					continue
+				}
+				cst, ok := constBig(p.constOf(pair[1]))
+				if !ok {
+					continue
+				}
+				t := p.typeOf(rem.X)
+				b, isB := t.Underlying().(*types.Basic)
+				if !isB || b.Info()&types.IsInteger == 0 || b.Info()&types.IsUnsigned != 0 {
+					continue
+				}
+				k++
+				n++
+				key := fmt.Sprintf("modsign:%s#%d", name, k)
+				if cst.Sign() == 0 {
+					c.ok(key, be, "remainder compared with zero: sign-independent", funcProps(name)...)
+					continue
+				}
+				iv := p.intervalAt(fd, rem.X, append(append([]ast.Node{}, stack...), nd))
+				c.check(iv.lo != nil && iv.lo.Sign() >= 0, key, be, "the dividend is non-negative here",
+					fmt.Sprintf("%s: `%s` compares a remainder of the signed value `%s` with %s, but that value can be negative here and Go's %% then yields a negative remainder: negative values are misclassified", name, p.exprStr(be), p.exprStr(rem.X), cst), funcProps(name)...)
+			}
+		})
+	}
+	if n < 1 {
+		c.Notes = append(c.Notes, "modsign: no remainder of a signed value is compared with a constant")
+	}
+}
